@@ -39,3 +39,44 @@ Proof.
   intros s p s' H. destruct (rm_link_frame s NsJoliet p s' H) as (A & B & C & _).
   split; [exact A|]. split; [exact B|]. split; [apply (C NsIso); discriminate|apply (C NsUdf); discriminate].
 Qed.
+
+(* ---- the Joliet directory area and path tables, written and read back: Model/MasterJoliet.v ----------------------
+   master_joliet = the bytes of every JOLIET directory extent and of both Joliet path tables of an ISO9660+Joliet image as
+   the library writes them (object graph of Model/AccountNs.v: two trees sharing inodes; the common layout); read_joliet = an
+   independent reader that starts at the SVD root pointer and decodes identifiers as UTF-16BE. *)
+From PV.Model Require AccountNs Master MasterJoliet.
+From PV.Proofs Require MasterJolietProofs MasterJolietSorted MasterJolietReach.
+Section MasterJolietStatements.
+Import PV.Model.AccountNs PV.Model.MasterJoliet PV.Proofs.MasterJolietProofs.
+Local Open Scope Z_scope.
+
+(* for every well-formed state: the reader recovers exactly the Joliet tree (Unicode names, kinds, lengths, extents) *)
+Theorem C09_joliet_reader_recovers_the_tree : forall (dt : list Z) (s : nstate), length dt = 7%nat -> mj_wf s = true ->
+  mj_kid_names_ok (njol s) = true -> Z.of_nat (length (mj_dir_positions (njol s))) <= 65535 ->
+  exists img : Master.image, master_joliet dt s = Some img /\
+    read_joliet (mj_height (njol s)) img (nth 4 (mj_svd s) 0) (nth 5 (mj_svd s) 0) = Some (mj_uview s).
+Proof. exact MasterJolietProofs.joliet_read_master. Qed.
+
+(* ... and for every state reached by an accepted history of AccountNs (byte names) *)
+Theorem C09_joliet_reader_recovers_the_tree_after_every_history : forall (dt : list Z) (ops : list nop), length dt = 7%nat ->
+  clean ops = true -> forallb bytes_op ops = true -> nlayout_end (nrun ops) <= 4294967296 ->
+  mj_dl_ok (niso (nrun ops)) = true -> mj_dl_ok (njol (nrun ops)) = true ->
+  Z.of_nat (length (mj_dir_positions (njol (nrun ops)))) <= 65535 ->
+  exists img : Master.image, master_joliet dt (nrun ops) = Some img /\
+    read_joliet (mj_height (njol (nrun ops))) img (nth 4 (mj_svd (nrun ops)) 0) (nth 5 (mj_svd (nrun ops)) 0) = Some (mj_uview (nrun ops)).
+Proof. exact MasterJolietReach.joliet_read_master_reachable. Qed.
+
+(* each Joliet file points at the same data sectors as its ISO9660 link; data of different contents never meet *)
+Theorem C09_joliet_same_sectors_as_the_iso9660_link : forall s : nstate, mj_wf s = true ->
+  (forall (pi pj : list nat) (ni nj : Account.ident) (i sti stj : nat),
+     mj_node_at (niso s) pi = Some (LFile ni i sti) -> mj_node_at (njol s) pj = Some (LFile nj i stj) ->
+     mj_rnode_at (mj_iview s) pi = Some (Master.RFile ni (mj_fext s i) (mj_ino_len s i)) /\
+     mj_rnode_at (mj_jview s) pj = Some (Master.RFile nj (mj_fext s i) (mj_ino_len s i))) /\
+  (forall i : nat, 0 < nrefcount i (niso s) (njol s) -> mj_ino_len s i <> 0 ->
+     mj_data_start s <= mj_fext s i /\ mj_fext s i + GenFun.ceiling_div (mj_ino_len s i) Master.BS <= mj_end s) /\
+  (forall i j : nat, i <> j -> 0 < nrefcount i (niso s) (njol s) -> mj_ino_len s i <> 0 ->
+     0 < nrefcount j (niso s) (njol s) -> mj_ino_len s j <> 0 ->
+     mj_fext s i + GenFun.ceiling_div (mj_ino_len s i) Master.BS <= mj_fext s j \/
+     mj_fext s j + GenFun.ceiling_div (mj_ino_len s j) Master.BS <= mj_fext s i).
+Proof. exact MasterJolietProofs.joliet_same_sectors. Qed.
+End MasterJolietStatements.
